@@ -123,9 +123,13 @@ class VarMatcher(BaseMatcher):
 @dataclass(frozen=True, slots=True)
 class SequenceMatcher(BaseMatcher):
     matchers: tuple[BaseMatcher, ...]
-    tail_matcher: AnyMatcher | None = field(default=None, init=False)
+    tail_matcher: AnyMatcher | None = None
 
     def __post_init__(self) -> None:
+        if self.tail_matcher is not None:
+            # Tail was already split off (e.g. a copy made by dataclasses.replace)
+            return
+
         if len(self.matchers) == 0:
             raise RuntimeError(
                 "SequenceMatcher must have at least one matcher."
